@@ -225,8 +225,82 @@ pub fn mutate(rng: &mut Rng, bytes: &[u8]) -> Vec<u8> {
     b
 }
 
+/// One to three frames that deframe perfectly (valid CRCs) but are hostile one level up: every link function code and flag
+/// combination (confirmed user data with FCB/FCV, reset link, test link, ACK/NACK/LINK_STATUS/NOT_SUPPORTED from the wrong
+/// side, the own side's DIR bit), reserved / broadcast / self / foreign addresses, no transport octet at all, a transport octet
+/// and nothing else, segments that begin in the middle of a fragment, repeat or skip sequence numbers, or never finish
+pub fn gen_odd_valid_frames(rng: &mut Rng, dest: u16, src: u16, from_master: bool) -> Vec<u8> {
+    let mut out = Vec::new();
+    let mut tseq = rng.below(64) as u8;
+    for _ in 0..rng.urange(1, 3) {
+        let dir = if from_master { 0x80u8 } else { 0x00 };
+        let ctrl = match rng.below(12) {
+            0 => rng.u8(),
+            1 => dir | 0x40,                                  // RESET_LINK_STATES
+            2 => dir | 0x42 | ((rng.below(2) as u8) << 5),      // TEST_LINK_STATES
+            3 | 4 => dir | 0x43 | ((rng.below(4) as u8) << 4), // CONFIRMED_USER_DATA with FCB/FCV in all combinations
+            5 => dir | 0x49,                                  // REQUEST_LINK_STATUS
+            6 => dir | rng.below(2) as u8,                    // ACK / NACK
+            7 => dir | 0x0B,                                  // LINK_STATUS
+            8 => dir | 0x0F,                                  // NOT_SUPPORTED
+            9 => (dir ^ 0x80) | 0x44,                         // unconfirmed user data with the DIR bit of the receiving side
+            _ => dir | 0x44,
+        };
+        let d = match rng.below(8) {
+            0 => 0xFFFC,
+            1 => 0xFFF0 + rng.below(12) as u16,
+            2 => 0xFFFD + rng.below(3) as u16,
+            3 => rng.u16(),
+            _ => dest,
+        };
+        let sr = match rng.below(8) {
+            0 => 0xFFF0 + rng.below(16) as u16,
+            1 => rng.u16(),
+            2 => dest,
+            _ => src,
+        };
+        let payload: Vec<u8> = match rng.below(8) {
+            0 => Vec::new(),
+            1 => vec![rng.u8()],
+            2 => {
+                // a middle or last segment without a first one
+                let mut p = vec![(rng.below(2) as u8) << 7 | (tseq & 0x3F)];
+                let k = rng.urange(0, 249);
+                p.extend(rng.bytes(k));
+                p
+            }
+            3 => {
+                // a first segment that never finishes, maximal size
+                let mut p = vec![0x40 | (tseq & 0x3F)];
+                p.extend(rng.bytes(249));
+                p
+            }
+            _ => {
+                let flags = (rng.below(4) as u8) << 6;
+                let mut p = vec![flags | (tseq & 0x3F)];
+                // something that looks like an application fragment
+                p.push(0xC0 | rng.below(16) as u8);
+                p.push(*rng.pick(&[0u8, 1, 2, 3, 4, 5, 13, 20, 21, 23, 24, 129, 130]));
+                let k = rng.urange(0, 40);
+                p.extend(rng.bytes(k));
+                p
+            }
+        };
+        tseq = match rng.below(4) {
+            0 => tseq,
+            1 => tseq.wrapping_add(2),
+            _ => tseq.wrapping_add(1),
+        };
+        out.extend(reflink::build_frame(&RefFrame { ctrl, dest: d, src: sr, payload }));
+    }
+    out
+}
+
 /// link-level garbage: random octets, a frame with a wrong CRC, or a frame cut short (header CRC intact)
 pub fn gen_wire_garbage(rng: &mut Rng, dest: u16, src: u16, from_master: bool) -> Vec<u8> {
+    if rng.chance(1, 3) {
+        return gen_odd_valid_frames(rng, dest, src, from_master);
+    }
     let n = rng.urange(0, 200);
     let frame = reflink::build_frame(&RefFrame {
         ctrl: if from_master { 0xC4 } else { 0x44 },
@@ -750,6 +824,9 @@ impl Scenario for HostileOutstation {
         let mut cfg = MasterCfg::basic();
         cfg.close_mode = rng.bool();
         cfg.decode_all = rng.chance(1, 3);
+        // "any legal buffer-size configuration ... in both roles" (the master's receive buffer cannot be smaller than 2048)
+        cfg.rx = *rng.pick(&[0usize, 0, 2048, 4096]);
+        cfg.tx = *rng.pick(&[2048usize, 2048, 249, 512]);
         cfg.reconnect_ms = 100;
         cfg.connect_min_ms = 100;
         cfg.connect_max_ms = 1000;
